@@ -268,6 +268,12 @@ func (l *commitLog) Append(msgs []*Message) ([]int64, error) {
 	if _, err := l.checkAndPerformSplit(); err != nil {
 		return nil, err
 	}
+	// The active segment must not be rolled (by the cleaner's tick) or
+	// replaced (by a truncation) between picking it and writing to it: the new
+	// segment would start at the offsets the messages are about to take, and
+	// the next append would hand them out again. Both take the log's lock.
+	l.mu.RLock()
+	defer l.mu.RUnlock()
 	var (
 		segment          = l.activeSegment()
 		basePosition     = segment.Position()
@@ -288,6 +294,9 @@ func (l *commitLog) AppendMessageSet(ms []byte) ([]int64, error) {
 	if _, err := l.checkAndPerformSplit(); err != nil {
 		return nil, err
 	}
+	// See Append.
+	l.mu.RLock()
+	defer l.mu.RUnlock()
 	var (
 		segment      = l.activeSegment()
 		basePosition = segment.Position()
